@@ -5,18 +5,19 @@
    (re-seeding reproduces the episode) and that reset keys never repeat within one seeding. *)
 EXTENDS Integers, Sequences, FiniteSets, TLC
 CONSTANTS Seeds, MaxDepth, KeepHalf       \* KeepHalf = "R" is the implementation; "L" is a decoy (reuses the reset key)
-VARIABLES key, sd, cnt, log, n, held
-vars == <<key, sd, cnt, log, n, held>>
+VARIABLES key, sd, cnt, log, n, held, op     \* op: the call made by the last step (read by the HIST driver)
+vars == <<key, sd, cnt, log, n, held, op>>
 KL(k) == Append(k, "L")
 KR(k) == Append(k, "R")
-Init == /\ sd \in Seeds /\ key = <<"root", sd>> /\ cnt = 0 /\ log = {} /\ n = 0 /\ held = <<>>
-Seed(s) == /\ key' = <<"root", s>> /\ sd' = s /\ cnt' = 0 /\ UNCHANGED <<log, held>>
+Init == /\ sd \in Seeds /\ key = <<"root", sd>> /\ cnt = 0 /\ log = {} /\ n = 0 /\ held = <<>> /\ op = <<"init", sd>>
+Seed(s) == /\ key' = <<"root", s>> /\ sd' = s /\ cnt' = 0 /\ op' = <<"seed", s>> /\ UNCHANGED <<log, held>>
 Reset == /\ key' = (IF KeepHalf = "R" THEN KR(key) ELSE KL(key))
          /\ cnt' = cnt + 1
          /\ log' = log \cup { <<sd, cnt + 1, KL(key)>> }
          /\ held' = KL(key)
+         /\ op' = <<"reset", 0>>
          /\ UNCHANGED sd
-Step == held # <<>> /\ UNCHANGED <<key, sd, cnt, log, held>>    \* step never touches the adapter key
+Step == held # <<>> /\ op' = <<"step", 0>> /\ UNCHANGED <<key, sd, cnt, log, held>>    \* step never touches the adapter key
 Next == n < MaxDepth /\ n' = n + 1 /\ (Reset \/ Step \/ \E s \in Seeds : Seed(s))
 Spec == Init /\ [][Next]_vars
 Reproducible == \A x, y \in log : (x[1] = y[1] /\ x[2] = y[2]) => x[3] = y[3]
